@@ -697,34 +697,16 @@ where
     __bytes_find(left, pattern.as_bytes())
 }
 pub(crate) const fn __bytes_find(left: &[u8], pattern: &[u8]) -> Option<usize> {
-    let mut matching = pattern;
+    let mut i = 0;
 
-    crate::for_range! {i in 0..left.len() =>
-        match matching {
-            [mb, m_rem @ ..] => {
-                let b = left[i];
-
-                matching = if b == *mb {
-                    m_rem
-                } else {
-                    match pattern {
-                        // For when the string is "lawlawn" and we are trying to find "lawn"
-                        [mb2, m_rem2 @ ..] if b == *mb2 => m_rem2,
-                        _ => pattern,
-                    }
-                };
-            }
-            [] => {
-                return Some(i - pattern.len())
-            }
+    while i + pattern.len() <= left.len() {
+        if __bytes_start_with(slice_from(left, i), pattern) {
+            return Some(i);
         }
+        i += 1;
     }
 
-    if matching.is_empty() {
-        Some(left.len() - pattern.len())
-    } else {
-        None
-    }
+    None
 }
 
 /// Whether `pattern` is inside `left`.
@@ -779,38 +761,25 @@ where
     __bytes_rfind(left, pattern.as_bytes())
 }
 pub(crate) const fn __bytes_rfind(left: &[u8], pattern: &[u8]) -> Option<usize> {
-    let mut matching = pattern;
+    if pattern.is_empty() {
+        return Some(left.len().saturating_sub(1));
+    }
 
-    let llen = left.len();
+    if pattern.len() > left.len() {
+        return None;
+    }
 
-    let mut i = llen;
+    let mut i = left.len() - pattern.len() + 1;
 
     while i != 0 {
         i -= 1;
 
-        match matching {
-            [m_rem @ .., mb] => {
-                let b = left[i];
-
-                matching = if b == *mb {
-                    m_rem
-                } else {
-                    match pattern {
-                        // For when the string is "lawlawn" and we are trying to find "lawn"
-                        [m_rem2 @ .., mb2] if b == *mb2 => m_rem2,
-                        _ => pattern,
-                    }
-                };
-            }
-            [] => return Some(i + (!pattern.is_empty()) as usize),
+        if __bytes_start_with(slice_from(left, i), pattern) {
+            return Some(i);
         }
     }
 
-    if matching.is_empty() {
-        Some(i)
-    } else {
-        None
-    }
+    None
 }
 
 /// Returns whether `pattern` is contained inside `left`, searching in reverse.
@@ -1072,57 +1041,6 @@ pub(crate) const fn __bytes_trim_end_matches<'a>(mut this: &'a [u8], needle: &[u
     }
 }
 
-macro_rules! elem_then_rem {
-    ($elem:ident, $($rem:tt)*) => { [$elem, $($rem)*] };
-}
-
-macro_rules! rem_then_elem {
-    ($elem:ident, $($rem:tt)*) => { [$($rem)*, $elem] };
-}
-
-macro_rules! byte_find_then {
-    ($slice_order:ident, $this:ident, $needle:ident, |$next:ident| $then:block) => ({
-        if $needle.is_empty() {
-            return Some($this);
-        }
-
-        let mut matching = $needle;
-
-        let mut $next = $this;
-
-        while let $slice_order!(mb, ref m_rem @ ..) = *matching {
-            matching = m_rem;
-
-            if let $slice_order!(b, ref rem @ ..) = *$next {
-                if b != mb {
-                    matching = match *$needle {
-                        // For when the string is "lawlawn" and we are skipping "lawn"
-                        $slice_order!(mb2, ref m_rem2 @ ..) if b == mb2 => {
-                            // This is considered used in half of the macro invocations
-                            #[allow(unused_assignments)]
-                            {$this = $next;}
-                            m_rem2
-                        },
-                        _ => {
-                            // This is considered used in half of the macro invocations
-                            #[allow(unused_assignments)]
-                            {$this = rem;}
-                            $needle
-                        },
-                    };
-                }
-                $next = rem;
-            } else {
-                return None;
-            }
-        }
-
-        $then
-
-        Some($this)
-    });
-}
-
 /// Advances `this` past the first instance of `needle`.
 ///
 /// Return `None` if no instance of `needle` is found.
@@ -1155,7 +1073,17 @@ where
     __bytes_find_skip(this, needle.as_bytes())
 }
 pub(crate) const fn __bytes_find_skip<'a>(mut this: &'a [u8], needle: &[u8]) -> Option<&'a [u8]> {
-    byte_find_then! {elem_then_rem, this, needle, |next| {this = next}}
+    if needle.is_empty() {
+        return Some(this);
+    }
+
+    match __bytes_find(this, needle) {
+        Some(pos) => {
+            this = slice_from(this, pos + needle.len());
+            Some(this)
+        }
+        None => None,
+    }
 }
 
 /// Advances `this` up to the first instance of `needle`.
@@ -1190,7 +1118,17 @@ where
     __bytes_find_keep(this, needle.as_bytes())
 }
 pub(crate) const fn __bytes_find_keep<'a>(mut this: &'a [u8], needle: &[u8]) -> Option<&'a [u8]> {
-    byte_find_then! {elem_then_rem, this, needle, |next| {}}
+    if needle.is_empty() {
+        return Some(this);
+    }
+
+    match __bytes_find(this, needle) {
+        Some(pos) => {
+            this = slice_from(this, pos);
+            Some(this)
+        }
+        None => None,
+    }
 }
 
 /// Truncates `this` to before the last instance of `needle`.
@@ -1225,7 +1163,17 @@ where
     __bytes_rfind_skip(this, needle.as_bytes())
 }
 pub(crate) const fn __bytes_rfind_skip<'a>(mut this: &'a [u8], needle: &[u8]) -> Option<&'a [u8]> {
-    byte_find_then! {rem_then_elem, this, needle, |next| {this = next}}
+    if needle.is_empty() {
+        return Some(this);
+    }
+
+    match __bytes_rfind(this, needle) {
+        Some(pos) => {
+            this = slice_up_to(this, pos);
+            Some(this)
+        }
+        None => None,
+    }
 }
 
 /// Truncates `this` to the last instance of `needle`.
@@ -1260,7 +1208,17 @@ where
     __bytes_rfind_keep(this, needle.as_bytes())
 }
 pub(crate) const fn __bytes_rfind_keep<'a>(mut this: &'a [u8], needle: &[u8]) -> Option<&'a [u8]> {
-    byte_find_then! {rem_then_elem, this, needle, |next| {}}
+    if needle.is_empty() {
+        return Some(this);
+    }
+
+    match __bytes_rfind(this, needle) {
+        Some(pos) => {
+            this = slice_up_to(this, pos + needle.len());
+            Some(this)
+        }
+        None => None,
+    }
 }
 
 /// A const equivalent of
